@@ -241,6 +241,18 @@ func genSmallCmd(out string, seed uint64, thorough bool) error {
 			stats["scripts_big_unsynced_write"]++
 		}
 		wid := fmt.Sprintf("s%d", s)
+		if s%25 == 13 {
+			// a multi-session history: session 1 ends with the tail PAST the segment size (the last
+			// operation is a SaveSnapshot, which never cuts), the WAL is reopened at a snapshot
+			// covering every stored entry, the first Save of session 2 carries no entries and runs
+			// the cut, more entries and a snapshot follow, another reopen at the EARLIER snapshot
+			so, sn, err := genSessionOps(r, root, wid+"t", &segsize, meta)
+			if err != nil {
+				return err
+			}
+			ops, snaps = so, sn
+			stats["scripts_multi_session"]++
+		}
 		sr, err := runScript(root, wid, segsize, meta, ops, &didc)
 		if err != nil {
 			return err
@@ -268,6 +280,13 @@ func genSmallCmd(out string, seed uint64, thorough bool) error {
 			stats["kill_images"]++
 			if sr.dirAt[i] < 0 {
 				stats["kill_images_unsynced"]++
+			}
+		}
+		if s%25 == 13 {
+			for _, sn := range snaps {
+				fmt.Fprintf(w, "READ %s %s %s %s\n", next(), final.id, hx(sn.Index), hx(sn.Term))
+				stats["read"]++
+				stats["reads_at_recorded_snapshots"]++
 			}
 		}
 		if len(snaps) > 0 {
@@ -474,4 +493,81 @@ func genSmallCmd(out string, seed uint64, thorough bool) error {
 	}
 	fmt.Println()
 	return nil
+}
+
+// genSessionOps builds the multi-session history described in genSmallCmd; payload sizes are
+// found by running the prefix on the real WAL (so that the geometry holds whatever the encoding)
+func genSessionOps(r *rng, root, wid string, segsize *int64, meta []byte) ([]genOp, []walpb.Snapshot, error) {
+	*segsize = []int64{512, 1024}[r.intn(2)]
+	tailEnd := func(ops []genOp) (int, int, error) {
+		c := 0
+		sr, err := runScript(root, wid, *segsize, meta, ops, &c)
+		if err != nil {
+			return 0, 0, err
+		}
+		fl := sr.final.files
+		_, end := frameOffsets(fl[len(fl)-1].data)
+		return end, len(fl), nil
+	}
+	cs := &raftpb.ConfState{Voters: []uint64{1, 2, 3}}
+	var ops []genOp
+	idx := uint64(0)
+	save := func(term uint64, n int, psize int) genOp {
+		op := genOp{kind: "save"}
+		for i := 0; i < n; i++ {
+			idx++
+			op.ents = append(op.ents, raftpb.Entry{Term: term, Index: idx, Data: r.bytes(psize)})
+		}
+		op.st = raftpb.HardState{Term: term, Vote: term, Commit: idx}
+		return op
+	}
+	// session 1: fill the first segment to just below its size
+	for {
+		end, _, err := tailEnd(ops)
+		if err != nil {
+			return nil, nil, err
+		}
+		if int64(end)+150 >= *segsize {
+			break
+		}
+		ops = append(ops, save(1, 1, 10+r.intn(30)))
+	}
+	ok := false
+	for p := 1; p < 200 && !ok; p++ {
+		idx0 := idx
+		cand := append(append([]genOp(nil), ops...), save(1, 1, p))
+		snapOp := genOp{kind: "snap", snap: walpb.Snapshot{Index: idx, Term: 1, ConfState: cs}}
+		e1, n1, err := tailEnd(cand)
+		if err != nil {
+			return nil, nil, err
+		}
+		e2, n2, err := tailEnd(append(append([]genOp(nil), cand...), snapOp))
+		if err != nil {
+			return nil, nil, err
+		}
+		if n1 == 1 && n2 == 1 && int64(e1) < *segsize && int64(e2) >= *segsize {
+			ops = append(cand, snapOp)
+			ok = true
+		} else {
+			idx = idx0
+		}
+	}
+	if !ok {
+		return nil, nil, fmt.Errorf("no geometry for a session ending past the segment size")
+	}
+	snap1 := walpb.Snapshot{Index: idx, Term: 1}
+	// session 2: reopen at the snapshot that covers every entry; a Save without entries cuts
+	ops = append(ops, genOp{kind: "reopen", snap: snap1})
+	ops = append(ops, genOp{kind: "save", st: raftpb.HardState{Term: 2, Vote: 2, Commit: idx}})
+	ops = append(ops, save(2, 2+r.intn(3), 10+r.intn(40)))
+	snap2 := walpb.Snapshot{Index: idx - 1, Term: 2}
+	ops = append(ops, genOp{kind: "snap", snap: walpb.Snapshot{Index: snap2.Index, Term: 2, ConfState: cs}})
+	// session 3: reopen at the EARLIER snapshot, append
+	ops = append(ops, genOp{kind: "reopen", snap: snap1})
+	ops = append(ops, save(2, 1+r.intn(3), 10+r.intn(40)))
+	if r.chance(1, 2) {
+		ops = append(ops, genOp{kind: "reopen", snap: snap2})
+		ops = append(ops, save(3, 1, 20))
+	}
+	return ops, []walpb.Snapshot{snap1, snap2}, nil
 }
